@@ -22,6 +22,7 @@
 #include <sstream>
 #include <memory>
 #include <stdexcept>
+#include <cmath>
 #include "libvpsc/rectangle.h"
 #include "libavoid/libavoid.h"
 #include "libcola/cola.h"
@@ -224,6 +225,74 @@ static AG genLinks(int n, vh::Rng &r) {
     return g;
 }
 
+// ---- "crowd" family: nodes that receive more connectors through one side than fit at the ideal nudging
+// distance (routingAbs_nudgingDistance = 4): hubs of degree 8-16 whose neighbours are tied
+// together so that the hub and its spokes stay in the core (peeled-tree edges are re-created root->leaf by
+// libdialect and are routed separately).  `hubs` receives the ids of the crowded nodes.
+//   0 wheel            hub + rim cycle
+//   1 partial wheel    hub + rim, 2/3 of the rim ties present (as class hub, higher degree)
+//   2 double wheel     two hubs over the same rim cycle (each joined to a random >= half of the rim)
+//   3 K(h,m)           h = 2..3 hubs all joined to the same m = 8..14 nodes, no other edges
+//   4 fan              hub joined to every node of a path (open rim)
+//   5 hub in a grid    a x b grid, one extra node joined to d random grid nodes
+//   6 two wheels       two wheels (degrees d/2+2 each, 6..12) joined by a bridge between the rims or sharing a rim node
+static AG genCrowd(int topo, int d, vh::Rng &r, std::vector<int> &hubs) {
+    AG g; hubs.clear();
+    if (topo == 3) {
+        int h = (int) r.range(2, 3);
+        int m = std::max(8, std::min(d, 14));
+        for (int i = 0; i < h; ++i) hubs.push_back(g.addNode());
+        for (int j = 0; j < m; ++j) { int v = g.addNode(); for (int hb : hubs) g.addEdge(hb, v); }
+        return g;
+    }
+    if (topo == 5) {
+        int a = 3, b = (int) r.range(3, 5);
+        for (int i = 0; i < a * b; ++i) g.addNode();
+        for (int i = 0; i < a; ++i) for (int j = 0; j < b; ++j) {
+            if (i + 1 < a) g.addEdge(i * b + j, (i + 1) * b + j);
+            if (j + 1 < b) g.addEdge(i * b + j, i * b + j + 1);
+        }
+        int hub = g.addNode(); hubs.push_back(hub);
+        std::vector<int> cells; for (int i = 0; i < a * b; ++i) cells.push_back(i);
+        r.shuffle(cells);
+        int dd = std::min(d, a * b);
+        for (int i = 0; i < dd; ++i) g.addEdge(hub, cells[i]);
+        return g;
+    }
+    if (topo == 6) {
+        int dd = std::max(6, std::min(12, d / 2 + 2));
+        std::vector<int> first;
+        bool share = r.coin();
+        for (int wv = 0; wv < 2; ++wv) {
+            int hub = g.addNode(); hubs.push_back(hub);
+            std::vector<int> rim;
+            for (int i = 0; i < dd; ++i) {
+                int v = (wv == 1 && share && i == 0) ? first[0] : g.addNode();
+                g.addEdge(hub, v); rim.push_back(v);
+            }
+            for (int i = 0; i < dd; ++i) g.addEdge(rim[i], rim[(i + 1) % dd]);
+            if (wv == 0) first = rim; else if (!share) g.addEdge(first[0], rim[0]);
+        }
+        return g;
+    }
+    int hub = g.addNode(); hubs.push_back(hub);
+    std::vector<int> rim;
+    for (int i = 0; i < d; ++i) { int v = g.addNode(); g.addEdge(hub, v); rim.push_back(v); }
+    for (int i = 0; i < d; ++i) {
+        bool last = (i + 1 == d);
+        if (topo == 4 && last) break;                         // fan: open rim
+        if (topo == 1 && !r.coin(2, 3)) continue;             // partial wheel
+        g.addEdge(rim[i], rim[(i + 1) % d]);
+    }
+    if (topo == 2) {
+        int h2 = g.addNode(); hubs.push_back(h2);
+        int cnt = 0;
+        for (int i = 0; i < d; ++i) if (r.coin(3, 4)) { g.addEdge(h2, rim[i]); ++cnt; }
+        if (cnt == 0) g.addEdge(h2, rim[0]);
+    }
+    return g;
+}
+
 struct Geo { double cx, cy, w, h; };
 
 // growth: 0 EAST, 1 SOUTH (library default), 2 WEST, 3 NORTH  (= dialect::CardinalDir)
@@ -241,13 +310,14 @@ static HolaOpts mkOpts(bool aca, bool nearAlign, unsigned reps, double kink, dou
 
 // one case: print the input, build the Graph through the public API, call doHOLA, dump the result
 static void runOne(long k, const std::string &tag, const AG &g, const std::vector<Geo> &geo, const HolaOpts &opts,
-                   int aspect, int posMode, int sizeMode, const std::vector<char> &flip) {
+                   int aspect, int posMode, int sizeMode, const std::vector<char> &flip, const std::string &extra = "") {
     int n = g.n;
     vh::beginCase(k, tag.c_str());
     printf("opts %d %d %u %s %s %d %s %d\n", (int) opts.useACAforLinks, (int) opts.do_near_align, opts.align_reps,
            vh::hx(opts.nearAlignScalar_kinkWidth).c_str(), vh::hx(opts.nearAlignScalar_scope).c_str(), aspect,
            vh::hx(opts.nodePaddingScalar).c_str(), (int) opts.defaultTreeGrowthDir);
     printf("pos %d\nsize %d\n", posMode, sizeMode);
+    if (!extra.empty()) printf("%s\n", extra.c_str());
     Graph G;
     std::vector<Node_SP> nodes(n);
     for (int i = 0; i < n; ++i) {
@@ -378,7 +448,7 @@ int main(int argc, char **argv) {
     bool thorough = a.tier == "thorough";
     // ---- experiment / minimisation mode: --mode <file> with lines `opts aca nearalign reps kink scope aspect`,
     //      `node cx cy w h`, `edge a b`; emitted as case 0 with tag "file"
-    if (!a.mode.empty()) {
+    if (!a.mode.empty() && a.mode != "crowd-open") {
         FILE *f = fopen(a.mode.c_str(), "r");
         if (!f) { fprintf(stderr, "cannot open %s\n", a.mode.c_str()); return 2; }
         AG g; std::vector<Geo> geo; HolaOpts opts; int aspect = 2;
@@ -480,6 +550,98 @@ int main(int argc, char **argv) {
         for (size_t j = 0; j < flip.size(); ++j) flip[j] = r.coin();
         std::string tag = std::string(classes[cls]) + (sizeMode == 3 ? "-free" : "");
         runOne(k, tag, g, geo, opts, aspect, posMode, sizeMode, flip);
+    }
+    // ---- "crowd" family: high-degree hubs on small nodes, all edge orientations.  Indices follow the round-robin
+    // classes and the cases have their own random streams (stream 14), so the cases above are unchanged.
+    //   topology  round-robin   (see genCrowd and `topos` below)
+    //   orient    next digit      declaration of the hub-incident edges: 0 all INTO the hub (addEdge(rim, hub)),
+    //                           1 all OUT of the hub, 2 random per edge, 3 alternating; other edges random
+    //   degree    8..16 (half of the cases 12..16)
+    //   sizes     0 all s x s, s in {6,8,10,12}; 1 small random 6..16; 2 hubs tiny 6..10, others 16..40;
+    //             3 hubs narrow (6..10 x 30..60 or transposed), others 8..16; 4 hubs large 40..60, others 6..12
+    //   positions the four modes above + 4 = hubs in the middle, the other nodes on a circle
+    const char *crowdTags[7] = {"crowd-wheel", "crowd-pwheel", "crowd-wheel2", "crowd-kbip", "crowd-fan", "crowd-grid", "crowd-wheels"};
+    // Topologies in the run plan: wheel and fan, started from spread-out positions.  The other five and the compact
+    // starts are the "open" sub-family (`--mode crowd-open` draws from all topologies and starts): there the UNCHANGED library aborts or
+    // throws in 1-25% of the cases (libavoid orthogonal.cpp:3045/:3179 assertions in nudgeOrthogonalRoutes, libdialect
+    // faces.cpp:130 assertion, "Nodes do not have cardinal separation!") - genuine finding candidates that are not
+    // registered yet; see tools/briefs/reports/fC14.md.
+    bool crowdOpen = a.mode == "crowd-open";
+    std::vector<int> topos = crowdOpen ? std::vector<int>{0, 1, 2, 3, 4, 5, 6} : std::vector<int>{0, 4};
+    int NT = (int) topos.size();
+    long ncrowd = (thorough ? 64 : 24) * a.scale;
+    long kc0 = nfixed + ncases;
+    for (long j = 0; j < ncrowd; ++j) {
+        long kk = kc0 + j;
+        if (!a.want(kk)) continue;
+        vh::Rng r = vh::caseRng(a.seed, (uint64_t) j, crowdOpen ? 15 : 14);
+        int topo = topos[j % NT];
+        int orient = (int) ((j / NT) % 4);
+        int d = (int) r.range(8, 16);
+        if (r.coin(1, 2)) d = (int) r.range(12, 16);
+        std::vector<int> hubs;
+        AG g = genCrowd(topo, d, r, hubs);
+        if (r.coin(1, 3)) hangTrees(g, (int) r.range(1, 4), r, (int) r.range(0, 2));
+        int n = g.n;
+        std::vector<char> isHub(n, 0);
+        for (int hb : hubs) isHub[hb] = 1;
+        int sizeMode = (int) r.range(0, 4);
+        std::vector<Geo> geo(n);
+        double s0 = 6.0 + 2.0 * (double) r.range(0, 3);
+        bool tallHubs = r.coin();
+        for (int i = 0; i < n; ++i) {
+            double w, h;
+            switch (sizeMode) {
+            case 0: w = h = s0; break;
+            case 1: w = (double) r.range(6, 16); h = (double) r.range(6, 16); break;
+            case 2: if (isHub[i]) { w = h = (double) r.range(6, 10); } else { w = (double) r.range(16, 40); h = (double) r.range(16, 40); } break;
+            case 3: if (isHub[i]) { double nar = (double) r.range(6, 10), lon = (double) r.range(30, 60);
+                                    w = tallHubs ? nar : lon; h = tallHubs ? lon : nar; }
+                    else { w = (double) r.range(8, 16); h = (double) r.range(8, 16); } break;
+            default: if (isHub[i]) { w = (double) r.range(40, 60); h = (double) r.range(40, 60); }
+                     else { w = (double) r.range(6, 12); h = (double) r.range(6, 12); } break;
+            }
+            geo[i].w = w; geo[i].h = h;
+        }
+        {   // exact sizes: IEL = sum(w+h)/n is an integer (see above); the correction goes to non-hub nodes
+            long S = 0; for (auto &q : geo) S += (long) q.w + (long) q.h;
+            long need = (n - S % n) % n;
+            for (int i = 0; need > 0; i = (i + 1) % n) { if (isHub[i]) continue; geo[i].h += 1; --need; }
+        }
+        // plan: spread-out starts only (1 fine grid over 1000 x 600, 4 circle); the compact / overlapping starts
+        // 0, 2, 3 are part of the open sub-family (they make the unchanged doHOLA throw "Nodes do not have cardinal
+        // separation!" in about 1% of the crowd cases)
+        int posMode = (int) r.range(0, 4);
+        if (!crowdOpen && posMode != 1 && posMode != 4) posMode = (posMode == 0) ? 1 : 4;
+        for (int i = 0, ring = 0; i < n; ++i) {
+            if (posMode == 0) { geo[i].cx = (double) r.range(0, 40L * n); geo[i].cy = (double) r.range(0, 40L * n); }
+            else if (posMode == 1) { geo[i].cx = (double) r.range(0, 1000 * 64) / 64.0; geo[i].cy = (double) r.range(0, 600 * 64) / 64.0; }
+            else if (posMode == 2) { geo[i].cx = 100.0 * (i % 5) + (double) r.range(-8, 8); geo[i].cy = 80.0 * (i / 5) + (double) r.range(-8, 8); }
+            else if (posMode == 3) { geo[i].cx = (double) r.range(0, 60); geo[i].cy = (double) r.range(0, 60); }
+            else if (isHub[i]) { geo[i].cx = 500.0 + 40.0 * i; geo[i].cy = 500.0; }
+            else { double ang = 6.283185307179586 * (double) ring / (double) std::max(1, n - (int) hubs.size()); ++ring;
+                   geo[i].cx = 500.0 + 12.0 * n * cos(ang); geo[i].cy = 500.0 + 12.0 * n * sin(ang); }
+        }
+        bool aca = r.coin();
+        bool nearAlign = r.coin(2, 3);
+        unsigned reps = (unsigned) r.range(1, 3);
+        double kink = r.coin() ? 0.25 : 0.5;
+        double scope = r.coin() ? 1.0 : 2.0;
+        int aspect = (int) r.range(0, 2);
+        int growth = (int) r.range(0, 3);
+        HolaOpts opts = mkOpts(aca, nearAlign, reps, kink, scope, aspect, growth);
+        std::vector<char> flip(g.es.size());
+        for (size_t e = 0; e < flip.size(); ++e) {
+            bool hf = isHub[g.es[e].first], hs = isHub[g.es[e].second];
+            bool rnd = r.coin();
+            if (hf == hs || orient == 2) flip[e] = rnd;
+            else if (orient == 0) flip[e] = hf;             // target end = hub
+            else if (orient == 1) flip[e] = hs;             // source end = hub
+            else flip[e] = (e % 2 == 0) ? hf : hs;          // alternating
+        }
+        char extra[96];
+        snprintf(extra, sizeof extra, "crowd %d %d %d %d", topo, orient, sizeMode, d);
+        runOne(kk, crowdTags[topo], g, geo, opts, aspect, posMode, sizeMode + 10, flip, extra);
     }
     return 0;
 }
